@@ -22,7 +22,7 @@ def main():
             fd.write(f'{x}\n')
             fd.flush()
             os.fsync(fd.fileno())
-        return x * 7 + 3
+        return None if x % 3 == 0 else x * 7 + 3      # None is a legal example value
     base = lazy_dataset.new(list(range(n))).map(f)
     holders = {}
     out = sys.stdout
